@@ -64,4 +64,19 @@ def gen(tier, seed, count=None, maxn=8, maxlen=10, miri=False):
             hist = rng.choice([[3, 3, 2, 3], [4, 2, 4, 4], [2, 2, 2], [5, 3, 5, 1, 5]])
             out.append("id=%d hist=%s pe=%d seed=%d reuse=1 dmode=%d damount=%d fpint=0 fpseed=1 gapat=%d gapms=%d" % (
                 n + k, ",".join(map(str, hist)), rng.choice([0, 1]), rng.randrange(1 << 30), rng.choice([3, 4, 2]), rng.choice([30, 120]), rng.randrange(1, len(hist)), ms))
+    if count is None and not miri:
+        # wide broadcasts (machine-word boundaries of any per-worker bookkeeping: 31, 32, 33, 63, 64, 65 auxiliary threads), with
+        # workers that are late for the next hand-off
+        for k in range(6 if tier == "quick" else 24):
+            w = rng.choice([[31, 32, 33, 32], [64, 64, 63, 64], [65, 33, 65, 64], [32, 64, 32, 64, 1, 64]])
+            out.append("id=%d hist=%s pe=%d seed=%d reuse=1 dmode=%d damount=30 fpint=%d fpseed=%d fpmask=%d fpus=%d" % (
+                n + 200 + k, ",".join(map(str, w)), rng.choice([0, 1]), rng.randrange(1 << 30), rng.choice([0, 3, 4]), rng.choice([0, 30]), rng.randrange(1 << 30),
+                rng.choice([1 << 14, 1 << 14, (1 << 14) | (1 << 13), 0]), rng.choice([100, 300])))
+    if count is None and not miri:
+        # thread creation fails in the middle of a history, while a broadcast grows a pool that already has workers
+        for k in range(4 if tier == "quick" else 40):
+            first = rng.choice([1, 2, 3])
+            hist = [first, first + rng.choice([1, 2, 4]), rng.choice([1, 2, first + 1]), first + 2]
+            out.append("id=%d hist=%s pe=0 seed=%d reuse=0 dmode=0 damount=%d fpint=0 fpseed=1 spawnfail=1" % (
+                n + 100 + k, ",".join(map(str, hist)), rng.randrange(1 << 30), rng.choice([30, 120])))
     return out
